@@ -8,8 +8,10 @@ package main
 
 import (
 	"fmt"
+	"go/token"
 	"go/types"
 	"os"
+	"strings"
 
 	"golang.org/x/tools/go/ssa"
 )
@@ -33,11 +35,11 @@ type resumeMsg struct {
 type goroutineKilled struct{}
 
 type scheduler struct {
-	gs      []*goroutine
-	cur     *goroutine
-	main    *goroutine
-	points  int
-	pending interface{} // a panic raised in a non-main goroutine, to be re-raised in main
+	gs        []*goroutine
+	cur       *goroutine
+	main      *goroutine
+	points    int
+	pending   interface{} // a panic raised in a non-main goroutine, to be re-raised in main
 	maxPoints int
 }
 
@@ -149,6 +151,12 @@ func (it *Interp) yieldPoint(fr *frame, why string) {
 	if !it.mstate.preemptive {
 		return
 	}
+	// pre-emption right after a release is enough to order critical sections in every
+	// possible way (switching before an acquire equals switching after the previous
+	// release, the code in between being goroutine-local)
+	if why != "unlock" && why != "close" && why != "wg.done" {
+		return
+	}
 	it.impure("scheduling point")
 	next := it.pickNext()
 	if next != nil && next != s.cur {
@@ -219,6 +227,9 @@ func (it *Interp) goStart(fr *frame, instr *ssa.Go, fn Value, args []Value) {
 	s := it.sched
 	g := &goroutine{id: len(s.gs), resume: make(chan resumeMsg)}
 	s.gs = append(s.gs, g)
+	if it.lockLog != nil {
+		it.lockLog.fork(s.cur, g)
+	}
 	goroutineBody[g] = func() {
 		defer func() {
 			delete(goroutineBody, g)
@@ -239,6 +250,9 @@ func (it *Interp) goStart(fr *frame, instr *ssa.Go, fn Value, args []Value) {
 				return
 			}
 			// normal exit: hand the token on
+			if it.lockLog != nil {
+				it.lockLog.release(g, g)
+			}
 			next := it.pickNextOnExit()
 			if next == nil {
 				// nobody can run: if main is blocked this is a deadlock
@@ -323,6 +337,9 @@ func (ch *Chan) canRecv() bool {
 
 // doSend performs a send known to be ready (canSend).
 func (it *Interp) doSend(ch *Chan, v Value) {
+	if it.lockLog != nil {
+		it.lockLog.release(it.sched.cur, ch)
+	}
 	if ch.closed {
 		panic(targetPanic{implicit: "send on closed channel"})
 	}
@@ -335,6 +352,9 @@ func (it *Interp) doSend(ch *Chan, v Value) {
 
 // doRecv performs a receive known to be ready (canRecv).
 func (it *Interp) doRecv(ch *Chan, elem types.Type) (Value, bool) {
+	if it.lockLog != nil {
+		it.lockLog.acquire(it.sched.cur, ch)
+	}
 	if len(ch.buf) > 0 {
 		v := ch.buf[0]
 		ch.buf = append([]Value{}, ch.buf[1:]...)
@@ -399,6 +419,9 @@ func (it *Interp) chanRecv(fr *frame, chv Value, commaOk bool, elem types.Type) 
 		ch.recvq = append(ch.recvq, &waiter{sel: sel})
 		it.blockUntil(fr, "chan receive", func() bool { return sel.fired || ch.closed })
 		ch.recvq = removeWaiters(ch.recvq, sel)
+		if it.lockLog != nil {
+			it.lockLog.acquire(it.sched.cur, ch)
+		}
 		if sel.fired {
 			v, ok = sel.val, true
 		} else {
@@ -419,6 +442,9 @@ func (it *Interp) chanClose(fr *frame, chv Value) {
 	}
 	if ch.closed {
 		panic(targetPanic{implicit: "close of closed channel"})
+	}
+	if it.lockLog != nil {
+		it.lockLog.release(it.sched.cur, ch)
 	}
 	ch.closed = true
 	it.yieldPoint(fr, "close")
@@ -507,6 +533,9 @@ func (it *Interp) selectStmt(fr *frame, instr *ssa.Select) Value {
 	}
 	if fired {
 		c := cases[sel.idx]
+		if it.lockLog != nil {
+			it.lockLog.acquire(it.sched.cur, c.ch)
+		}
 		if c.send {
 			return it.selectResult(instr, sel.idx, nil, false)
 		}
@@ -563,6 +592,13 @@ func (it *Interp) quiesce(fr *frame) int {
 		it.transfer(next)
 		cur.waitCond = nil
 	}
+	if it.lockLog != nil {
+		for _, g := range s.gs {
+			if g.done {
+				it.lockLog.acquire(s.cur, g)
+			}
+		}
+	}
 	alive := 0
 	for _, g := range s.gs {
 		if g != s.cur && !g.done {
@@ -589,11 +625,205 @@ func (s *scheduler) runnable2(except *goroutine) []*goroutine {
 	return out
 }
 
-// ---- lock logging (C08)
+// ---- data-race detection (C08): vector clocks over the scheduler's happens-before
+// (go statements, mutexes, channels, wait groups, atomics, quiescence).
 
-type lockLogger struct{}
+const maxG = 8
 
-func (l *lockLogger) access(fr *frame, p *Value, write bool)         {}
-func (l *lockLogger) accessObj(fr *frame, o interface{}, write bool) {}
-func (l *lockLogger) lock(fr *frame, p *Value)                       {}
-func (l *lockLogger) unlock(fr *frame, p *Value)                     {}
+type vclock [maxG]int
+
+func (a *vclock) join(b *vclock) {
+	for i := range a {
+		if b[i] > a[i] {
+			a[i] = b[i]
+		}
+	}
+}
+
+type accessRec struct {
+	g     int
+	clock int
+	where whereRef
+}
+
+// whereRef identifies the innermost repository (non-harness) frame of an access; its
+// text is only built when a race is reported.
+type whereRef struct {
+	fn  *ssa.Function
+	pos token.Pos
+}
+
+var whereFnCache = map[*ssa.Function]bool{}
+
+type locState struct {
+	lastWrite accessRec
+	hasWrite  bool
+	reads     []accessRec
+}
+
+type raceReport struct {
+	what string
+}
+
+type lockLogger struct {
+	it    *Interp
+	gvc   map[*goroutine]*vclock
+	objvc map[interface{}]*vclock // mutexes, channels, wait groups, atomics
+	locs  map[interface{}]*locState
+	races []string
+	seen  map[string]bool
+}
+
+func newRaceDetector(it *Interp) *lockLogger {
+	return &lockLogger{it: it, gvc: map[*goroutine]*vclock{}, objvc: map[interface{}]*vclock{}, locs: map[interface{}]*locState{}, seen: map[string]bool{}}
+}
+
+func (l *lockLogger) vcOf(g *goroutine) *vclock {
+	if g == nil {
+		g = l.it.sched.main
+	}
+	v := l.gvc[g]
+	if v == nil {
+		v = &vclock{}
+		v[g.id%maxG] = 1
+		l.gvc[g] = v
+	}
+	return v
+}
+
+func (l *lockLogger) cur(fr *frame) *goroutine {
+	if l.it.sched != nil && l.it.sched.cur != nil {
+		return l.it.sched.cur
+	}
+	return nil
+}
+
+func (l *lockLogger) fork(parent, child *goroutine) {
+	pv := l.vcOf(parent)
+	cv := &vclock{}
+	*cv = *pv
+	cv[child.id%maxG]++
+	l.gvc[child] = cv
+	pv[parent.id%maxG]++
+}
+
+// acquire: the goroutine learns everything released on obj.
+func (l *lockLogger) acquire(g *goroutine, obj interface{}) {
+	if ov := l.objvc[obj]; ov != nil {
+		l.vcOf(g).join(ov)
+	}
+}
+
+// release: obj learns everything the goroutine has done.
+func (l *lockLogger) release(g *goroutine, obj interface{}) {
+	gv := l.vcOf(g)
+	ov := l.objvc[obj]
+	if ov == nil {
+		ov = &vclock{}
+		l.objvc[obj] = ov
+	}
+	ov.join(gv)
+	if g == nil {
+		g = l.it.sched.main
+	}
+	gv[g.id%maxG]++
+}
+
+func (l *lockLogger) lock(fr *frame, p *Value)   { l.acquire(l.cur(fr), p) }
+func (l *lockLogger) unlock(fr *frame, p *Value) { l.release(l.cur(fr), p) }
+
+func (l *lockLogger) where(fr *frame) whereRef {
+	for f := fr; f != nil; f = f.caller {
+		if f.fn == nil {
+			continue
+		}
+		in, ok := whereFnCache[f.fn]
+		if !ok {
+			name := f.fn.String()
+			in = strings.Contains(name, "cuelabs.dev/go/oci") && !strings.Contains(name, "Verif") && !strings.Contains(name, "verif")
+			whereFnCache[f.fn] = in
+		}
+		if in {
+			w := whereRef{fn: f.fn}
+			if f.curInstr != nil {
+				w.pos = f.curInstr.Pos()
+			}
+			return w
+		}
+	}
+	return whereRef{}
+}
+
+func (l *lockLogger) whereString(w whereRef) string {
+	if w.fn == nil {
+		return "(harness)"
+	}
+	pos := ""
+	if w.pos.IsValid() {
+		p := l.it.prog.Fset.Position(w.pos)
+		pos = fmt.Sprintf(" %s:%d", shortFile(p.Filename), p.Line)
+	}
+	return w.fn.String() + pos
+}
+
+func (l *lockLogger) access(fr *frame, p *Value, write bool) { l.accessObj(fr, p, write) }
+
+func (l *lockLogger) accessObj(fr *frame, obj interface{}, write bool) {
+	s := l.it.sched
+	if s == nil || len(s.gs) < 2 {
+		return // single-threaded so far
+	}
+	g := s.cur
+	gv := l.vcOf(g)
+	st := l.locs[obj]
+	if st == nil {
+		st = &locState{}
+		l.locs[obj] = st
+	}
+	gi := g.id % maxG
+	report := func(prev accessRec, prevKind string) {
+		kind := "read"
+		if write {
+			kind = "write"
+		}
+		wr := l.where(fr)
+		if wr.fn == nil && prev.where.fn == nil {
+			return
+		}
+		a, b := l.whereString(prev.where), l.whereString(wr)
+		msg := fmt.Sprintf("data race: %s at %s (goroutine %d) is concurrent with %s at %s (goroutine %d)", prevKind, a, prev.g, kind, b, g.id)
+		key := a + "|" + b
+		if b < a {
+			key = b + "|" + a
+		}
+		if !l.seen[key] {
+			l.seen[key] = true
+			l.races = append(l.races, msg)
+		}
+	}
+	if st.hasWrite && st.lastWrite.g != g.id && st.lastWrite.clock > gv[st.lastWrite.g%maxG] {
+		report(st.lastWrite, "write")
+	}
+	if write {
+		for _, r := range st.reads {
+			if r.g != g.id && r.clock > gv[r.g%maxG] {
+				report(r, "read")
+			}
+		}
+		st.lastWrite = accessRec{g: g.id, clock: gv[gi], where: l.where(fr)}
+		st.hasWrite = true
+		st.reads = st.reads[:0]
+	} else {
+		found := false
+		for i := range st.reads {
+			if st.reads[i].g == g.id {
+				st.reads[i].clock = gv[gi]
+				st.reads[i].where = l.where(fr)
+				found = true
+			}
+		}
+		if !found {
+			st.reads = append(st.reads, accessRec{g: g.id, clock: gv[gi], where: l.where(fr)})
+		}
+	}
+}
